@@ -49,6 +49,7 @@ func ruleC08(c *Check) {
 	c.respondNoHeight("C08.5")
 	c.startRules("C08")
 	c.handlersAddNoRejection("C08.6", "MsgRespondService")
+	c.issueLoopOverList("C08.2")
 	c.queuePairs("C08")
 	c.contextDeleters("C08")
 	c.queueDeleters("C08")
@@ -81,6 +82,7 @@ func ruleC10(c *Check) {
 	c.newBatchRules("C10", map[string]bool{"issue-without-expiry": true})
 	c.keyGrammar("C10.6", map[string]bool{"0x09": true, "0x10": true, "0x11": true, "0x12": true})
 	c.newBatchDequeue("C10")
+	c.contextDeleters("C10")
 }
 
 func ruleC11(c *Check) {
@@ -102,6 +104,8 @@ func ruleC11(c *Check) {
 	c.resetConstants("C11.9")
 	c.expiredRequestRules("C11")
 	c.constructorRules("C11.10", map[string]bool{"frequency": true})
+	c.contextFieldRules("C11.4", map[string]bool{"counts": true})
+	c.reconstruction("C11.5")
 }
 
 func ruleC12(c *Check) {
